@@ -363,7 +363,7 @@ Definition dispatch (cfg : be_cfg) (s : be_state) (o : N) (h : VhostUserMsgHeade
                   | RErr e => RErr e
                   | ROk _ => check_size h size (VhostUserMsgHeader_get_size R h)
                   end
-                else ROk tt in
+                else check_size h size 0 in
     match gate with
     | RErr e => (s, fail e fl)
     | ROk _ =>
@@ -479,17 +479,24 @@ Definition dispatch (cfg : be_cfg) (s : be_state) (o : N) (h : VhostUserMsgHeade
         end
     end
   else if code =? FrontendReq_CHECK_DEVICE_STATE then
-    (s, reply h (u64_body (if o =? OUT_OK then 0 else 1)) [] (call "check_device_state" []) [] fl)
+    match check_size h size 0 with
+    | RErr e => (s, fail e fl)
+    | ROk _ => (s, reply h (u64_body (if o =? OUT_OK then 0 else 1)) [] (call "check_device_state" []) [] fl)
+    end
   else if code =? FrontendReq_GET_SHMEM_CONFIG then
     match check_proto s VhostUserProtocolFeatures_SHMEM with
     | RErr e => (s, fail e fl)
     | ROk _ =>
-        let c := call "get_shmem_config" [] in
-        if o =? OUT_OK then
-          let cfgv := {| VhostUserShMemConfig_nregions := 2; VhostUserShMemConfig_padding := 0;
-                         VhostUserShMemConfig_memory_sizes := [4096; 8192] |} in
-          (s, reply h (VhostUserShMemConfig_write cfgv) [] c [] fl)
-        else (s, handler_failed c [] fl)
+        match check_size h size 0 with
+        | RErr e => (s, fail e fl)
+        | ROk _ =>
+            let c := call "get_shmem_config" [] in
+            if o =? OUT_OK then
+              let cfgv := {| VhostUserShMemConfig_nregions := 2; VhostUserShMemConfig_padding := 0;
+                             VhostUserShMemConfig_memory_sizes := [4096; 8192] |} in
+              (s, reply h (VhostUserShMemConfig_write cfgv) [] c [] fl)
+            else (s, handler_failed c [] fl)
+        end
     end
   else if code =? FrontendReq_SET_LOG_BASE then
     match check_proto s VhostUserProtocolFeatures_LOG_SHMFD with
